@@ -62,7 +62,7 @@ fn spec(prop: &str) -> Option<Spec> {
         "C13" => Spec {
             prop: "C13",
             hosts: &[Direct, Core, Core, Legacy, BridgeBincode, BridgeJson],
-            gen: GenCfg { max_acts: 260, start_weight: 6, scale: false, ..GenCfg::standard() },
+            gen: GenCfg { max_acts: 260, start_weight: 6, scale: false, garbage_weight: 1, ..GenCfg::standard() },
             rule: "long cyclic histories (up to 260 shell actions: programs started again and again, resolutions, drops, aborts, late resolutions) on direct / Core / legacy / bridge hosts; after every call: no finished task future is still held (drop counters on every task root future the generated program creates), the core's executor holds exactly as many tasks as there are unfinished commands returned by update, the bridge registry holds no entry for a request that can no longer be resolved; after dropping the host no task future exists; non-trivial = >= 100 actions in which the set of outstanding requests returned to empty >= 10 times; distinct = distinct (host, universe)",
             nontrivial: |_, i| i.actions >= 100 && i.returned_to_empty >= 10,
             quick: 400,
@@ -181,7 +181,7 @@ fn owns(prop: &str, clause: &str, cancel_context: bool) -> bool {
         "C06" => &["cancelled-polled", "discarded-alive", "effects", "conformance"],
         "C07" => &["done-flag", "dead-kept", "discarded-alive"],
         "C09" => &["bridge-ids", "bridge-bytes", "effects", "view", "resolve-result", "delivery"],
-        "C13" => &["release"],
+        "C13" => &["release", "dead-kept"],
         _ => &[],
     };
     // a failure nobody has classified is reported rather than hidden; a driver error is the harness's own
@@ -240,15 +240,33 @@ fn labels(u: &Universe, info: &CaseInfo, host: HostKind) -> Vec<String> {
 /// counts the bytes each thread allocates (C12: a malformed input must not cause unbounded allocation)
 struct Counting;
 thread_local! { static ALLOCATED: std::cell::Cell<u64> = const { std::cell::Cell::new(0) }; }
+/// no single allocation of this size is ever legitimate here (inputs are a few hundred bytes,
+/// payloads at most ~1 MB): refusing it turns "the core tries to allocate what a corrupted length
+/// field says" into an allocation failure (abort -> C12's abort handler) instead of exhausting
+/// the machine
+const REFUSE_ABOVE: usize = 1 << 30;
 unsafe impl std::alloc::GlobalAlloc for Counting {
     unsafe fn alloc(&self, l: std::alloc::Layout) -> *mut u8 {
+        if l.size() > REFUSE_ABOVE {
+            return std::ptr::null_mut();
+        }
         let _ = ALLOCATED.try_with(|c| c.set(c.get() + l.size() as u64));
         std::alloc::System.alloc(l)
+    }
+    unsafe fn alloc_zeroed(&self, l: std::alloc::Layout) -> *mut u8 {
+        if l.size() > REFUSE_ABOVE {
+            return std::ptr::null_mut();
+        }
+        let _ = ALLOCATED.try_with(|c| c.set(c.get() + l.size() as u64));
+        std::alloc::System.alloc_zeroed(l)
     }
     unsafe fn dealloc(&self, p: *mut u8, l: std::alloc::Layout) {
         std::alloc::System.dealloc(p, l)
     }
     unsafe fn realloc(&self, p: *mut u8, l: std::alloc::Layout, n: usize) -> *mut u8 {
+        if n > REFUSE_ABOVE {
+            return std::ptr::null_mut();
+        }
         let _ = ALLOCATED.try_with(|c| c.set(c.get() + n.saturating_sub(l.size()) as u64));
         std::alloc::System.realloc(p, l, n)
     }
